@@ -7,6 +7,7 @@ import random
 
 import coregen
 from corerun import sx
+from checks import corefam4
 
 LEVEL = "proof"
 BUILDS = {"quick": ["py"], "thorough": ["py", "cy"]}
@@ -17,6 +18,11 @@ TRUSTED_CORE = [
     "harness/corerun.py: interpreter of the program language on the real library, trace recorder, canonical numbering",
     "CPython generator / with-statement semantics, qcore.EventHook",
 ]
+ASYNCIO_RULE = ("; plus the asyncio-mode family: 400 (thorough 5 000) batch-free programs of the C15 language (checks/c15.py), selected "
+                "for what this property speaks about and outside C15's open findings, each run as fn(args), .asynq().value() and "
+                "three ways of `await fn.asyncio(args)` under an event loop and judged by the C15 model (driver mode asyncio)")
+TRUSTED_ASYNCIO = ["asyncio-mode family: hand-written Lean model AsynqModel.Lib.Asyncio and harness checks/c15.py (see the C15 check; "
+                   "its theorems are audited by `bin/check C15`)"]
 ASSUMPTIONS_CORE = [
     "user flush code answers each item independently of batch composition (itemVal / item modes)",
     "task bodies are first-order programs of the model language (success/failure branching only)",
@@ -505,16 +511,24 @@ def run_longloop(case):
 
 
 EXOTIC_SHAPES = ["bare", "tuple1", "tuple2", "tuple3", "tuple5", "list3", "dict3", "nested"]
-EXOTIC_ERRS = ["Exception", "StopIteration", "StopAsyncIteration", "GeneratorExit", "KeyboardInterrupt", "SystemExit", "falsy"]
-EXOTIC_SRC = ["errfut", "lazy", "task"]
+EXOTIC_ERRS = ["Exception", "StopIteration", "StopAsyncIteration", "GeneratorExit", "KeyboardInterrupt", "SystemExit", "falsy",
+               "Cancelled"]
+# ("CancelledSub", a SUBCLASS of AsyncTaskCancelledError, is understood by run_exotic but not planned: AsyncTask._continue
+#  tests the exact type, so an uncaught subclass instance ends a task like a plain GeneratorExit = `return None`)
+# errfut / lazy / task: the failing future itself; through-*: a task that awaits such a future, has the error thrown INTO it
+# and does not catch it (the error is then that task's own failure)
+EXOTIC_SRC = ["errfut", "lazy", "task", "through-errfut", "through-task", "through-gathered"]
 
 
 def run_exotic(case):
     """C02 (delivery at the yield): a task awaits a structure (every container shape the unwrap code special-cases)
     in which one future failed with an error of an exotic class (StopIteration, GeneratorExit, KeyboardInterrupt, a falsy
-    one ...): the VERY error object is raised at the yield (identity), the task can catch it and go on, and when every
-    future succeeded the structure of values arrives with the same shape.  (CPython's special treatment of these
-    classes inside generators is not in the machine's language; direct expectation.)"""
+    one, asynq's own public AsyncTaskCancelledError - a subclass of GeneratorExit that AsyncTask._continue treats as a
+    FAILURE, unlike a plain GeneratorExit - ...): the VERY error object is raised at the yield (identity), the task can
+    catch it and go on, and when every future succeeded the structure of values arrives with the same shape; left
+    uncaught it becomes the task's own failure and finally the exception raised by value() of the root (identity again).
+    (CPython's special treatment of these classes inside generators is not in the machine's language; direct
+    expectation.)"""
     import asynq
     shape, ename, src, pos = case["shape"], case["err"], case["src"], case["pos"]
 
@@ -525,8 +539,13 @@ def run_exotic(case):
     class MyStop(StopIteration):
         pass
 
+    class MyCancelled(asynq.AsyncTaskCancelledError):
+        """a subclass is not `type(error) is AsyncTaskCancelledError`: AsyncTask._continue treats it like a plain
+        GeneratorExit raised by the task itself (= return None); as the error of an awaited future it is an error"""
+
     cls = {"Exception": ValueError, "StopIteration": MyStop, "StopAsyncIteration": StopAsyncIteration, "GeneratorExit": GeneratorExit,
-           "KeyboardInterrupt": KeyboardInterrupt, "SystemExit": SystemExit, "falsy": Falsy}[ename]
+           "KeyboardInterrupt": KeyboardInterrupt, "SystemExit": SystemExit, "falsy": Falsy,
+           "Cancelled": asynq.AsyncTaskCancelledError, "CancelledSub": MyCancelled}[ename]
     err = cls("exotic")
 
     def raiser():
@@ -542,11 +561,22 @@ def run_exotic(case):
         raise err
         yield
 
+    @asynq.asynq()
+    def through(what):
+        # the error is thrown into this task at its yield and not caught: its own failure
+        if what == "gathered":
+            yield [asynq.ConstFuture(1), (failing_task.asynq(), asynq.ErrorFuture(ValueError("second in structure order")))]
+        else:
+            yield (asynq.ErrorFuture(err) if what == "errfut" else failing_task.asynq())
+        return "continued"
+
     def failing():
         if src == "errfut":
             return asynq.ErrorFuture(err)
         if src == "lazy":
             return asynq.Future(raiser)
+        if src.startswith("through-"):
+            return through.asynq(src[len("through-"):])
         return failing_task.asynq()
 
     def build(fail):
@@ -584,13 +614,34 @@ def run_exotic(case):
         log.append("values-ok" if got == ok_vals else "values-wrong")
         return 7
 
+    @asynq.asynq()
+    def middle():
+        bad_struct, _ = build(True)
+        yield bad_struct
+        return "continued"
+
+    @asynq.asynq()
+    def root_uncaught():
+        return (yield [middle.asynq()])
+
     asynq.scheduler.reset()
     try:
         out = "ok" if root() == 7 else "wrong-value"
     except BaseException as e:
         out = "raised-" + type(e).__name__
+    if ename in ("GeneratorExit", "StopIteration"):
+        # a generator that ends with a plain GeneratorExit counts as `return None` (by design), and CPython turns a
+        # StopIteration leaving a generator into RuntimeError: not the statement's business
+        log.append("uncaught-skipped")
+    else:
+        asynq.scheduler.reset()
+        try:
+            v = root_uncaught()
+            log.append("uncaught-swallowed-value-%s" % ("none" if v is None else type(v).__name__))
+        except BaseException as e:
+            log.append("uncaught-same-error" if e is err else "uncaught-other-error-%s" % type(e).__name__)
     asynq.scheduler.reset()
-    lines = ["(case exotic %d)" % case["id"], "(result %s (%s))" % (out, " ".join(log)), "(end)"]
+    lines = ["(case exotic %d %s %s)" % (case["id"], ename, src), "(result %s (%s))" % (out, " ".join(log)), "(end)"]
     return {"lines": lines, "features": ["exotic-" + ename, "shape-" + shape], "nontrivial": "exotic-%s-%s-%s-%d" % (shape, ename, src, pos)}
 
 
@@ -599,13 +650,129 @@ def exotic_cases():
             for src in EXOTIC_SRC
             # a lazily computed Future stores only Exception subclasses (BaseExceptions of a provider keep their normal
             # behaviour by design, futures.py), and a generator ending with a plain GeneratorExit counts as returning None
-            if not (src == "lazy" and e in ("GeneratorExit", "KeyboardInterrupt", "SystemExit"))
-            if not (src == "task" and e == "GeneratorExit")
+            if not (src == "lazy" and e in ("GeneratorExit", "KeyboardInterrupt", "SystemExit", "Cancelled", "CancelledSub"))
+            # ... and so does a subclass of AsyncTaskCancelledError raised by the task itself (_continue tests the exact type)
+            if not (src in ("task", "through-task", "through-gathered") and e in ("GeneratorExit", "CancelledSub"))
+            # thrown INTO a task and left uncaught: a plain GeneratorExit / a subclass of AsyncTaskCancelledError ends the
+            # generator like `return None`, a StopIteration becomes RuntimeError (PEP 479)
+            if not (src.startswith("through-") and e in ("GeneratorExit", "StopIteration", "CancelledSub"))
             for p in ((0,) if sh in ("bare", "tuple1") else (0, 1, 2) if sh != "tuple5" else (0, 2, 4))]
+
+
+# ---------------------------------------------------------------------------------------------------------------------
+# asyncio-mode family (round 4; C01, C02, C03): the statements of these properties do not exclude `fn.asyncio()` under an
+# event loop.  The batch-free asyncio semantics is modelled by AsynqModel.Lib.Asyncio (the C15 check), so the family is a
+# selection of C15 cases - chosen for what each property speaks about - wrapped as {"special": "c15", "inner": <c15 case>},
+# run by checks.c15.run_case and judged by the driver in mode `asyncio`.  Cases inside C15's three OPEN findings
+# (BaseException handler + BaseException-only error, container-subclass yields, async_proxy returning a non-future) are
+# filtered out statically, so C01-C03 stay quiet on the unchanged tree.
+# ---------------------------------------------------------------------------------------------------------------------
+
+def _aio_outside_open_findings(c15, case):
+    p = c15.expand(case)[1]
+    if c15.has_base_handler_and_raise(p):
+        return False
+    tags = c15.ys_tags(p)
+    return not (tags & set(c15.SUB_TAGS)) and "pval" not in tags
+
+
+def _aio_calls(c15, case):
+    """all call descriptors [kind, afn, label] of a case (top first)"""
+    c, p = c15.expand(case)
+    res = [c]
+    for q in c15.walk_progs(p):
+        if q[0] in c15.YLD:
+            res += [x[1] for x in c15.walk_ys(q[1]) if isinstance(x, list) and x[0] == "task"]
+        elif q[0] == "sync":
+            res.append(q[1])
+    return res
+
+
+def _aio_focus(c15, pid, case):
+    """does the case exercise what the property speaks about?"""
+    p = c15.expand(case)[1]
+    progs = list(c15.walk_progs(p))
+    ops = {q[0] for q in progs}
+    if pid == "C01":
+        # results equal: anything that ends in a value or an error travelling through at least one yield
+        return bool(ops & set(c15.YLD))
+    if pid == "C02":
+        # a failure next to siblings in a structure (delivered after all of them, first in structure order), handlers
+        if not (ops & {"raise", "raiseB"}):
+            return False
+        for q in progs:
+            if q[0] in c15.YLD:
+                ntask = sum(1 for x in c15.walk_ys(q[1]) if isinstance(x, list) and x[0] == "task")
+                if ntask >= 2 or (ntask >= 1 and q[3] != ["reraise"]):
+                    return True
+        return False
+    # C03: several tasks yielded together / in a row (start order, once per yield), every kind of function
+    return c15.count_tasks(p) >= 2
+
+
+def _aio_vary_kinds(c15, case, rng):
+    """C03: `pure` functions (decorators.py _call_pure has its own asyncio branch) in place of some generator functions"""
+    if "top" not in case:
+        return case
+    case = json.loads(json.dumps(case))
+    for q in c15.walk_progs(case["top"][1]):
+        if q[0] in c15.YLD:
+            # only tasks that are YIELDED: calling a pure function synchronously gives a task, not a value (C15 never does)
+            for x in c15.walk_ys(q[1]):
+                if isinstance(x, list) and x[0] == "task" and x[1][0] == "gen" and x[1][1] == 0 and rng.random() < 0.35:
+                    # (only plain declarations: c15's 4th field `var` selects sync_fn= / classmethod / staticmethod forms,
+                    # which do not exist for pure functions)
+                    if len(x[1]) > 3 and x[1][3] != 0:
+                        continue
+                    x[1][0] = "pure"
+                    if hasattr(c15, "valid_call") and not c15.valid_call(x[1]):
+                        x[1][0] = "gen"
+    return case
+
+
+def asyncio_cases(pid, tier, rng):
+    from checks import c15
+    n = 400 if tier == "quick" else 5000
+    res = []
+    fixed = [c for c in c15.family() + (c15.value_family() if pid == "C01" else []) if _aio_outside_open_findings(c15, c)]
+    fixed = [c for c in fixed if _aio_focus(c15, pid, c)]
+    rng.shuffle(fixed)
+    fixed = fixed[:n // 4]
+    for c in fixed:
+        c15.usage(c, rng)
+    res += fixed
+    if pid == "C03":
+        sizes = [c for c in c15.size_family("quick", rng) if c["fam"] in ("wide", "long", "chain") and c.get(c15.SIZE_KEY[c["fam"]], 0) <= 130]
+        rng.shuffle(sizes)
+        res += sizes[:n // 10]
+    tries = 0
+    while len(res) < n and tries < 200 * n:
+        tries += 1
+        c = c15.gen_case(rng)
+        if not _aio_outside_open_findings(c15, c) or not _aio_focus(c15, pid, c):
+            continue
+        if pid == "C03":
+            c = _aio_vary_kinds(c15, c, rng)
+        res.append(c)
+    return [{"special": "c15", "inner": c} for c in res]
+
+
+def run_c15(case):
+    from checks import c15
+    inner = dict(case["inner"], id=case["id"])
+    r = c15.run_case(inner)
+    r["features"] = ["family=asyncio-mode"] + ["aio:" + f for f in r.get("features", [])]
+    if r.get("nontrivial"):
+        r["nontrivial"] = "aio-" + r["nontrivial"]
+    return r
 
 
 def run_case_for(pid, case):
     from corerun import run_program
+    if case.get("special") == "c15":
+        return run_c15(case)
+    if case.get("special") in corefam4.RUNNERS:
+        return corefam4.RUNNERS[case["special"]](case)
     if case.get("special") == "exotic":
         return run_exotic(case)
     if case.get("special") == "longloop":
@@ -666,6 +833,11 @@ def run_case_for(pid, case):
 
 
 def shrink_case(case):
+    if case.get("special") == "c15":
+        from checks import c15
+        for q in c15.shrink(case["inner"]):
+            yield {"special": "c15", "inner": q}
+        return
     if case.get("family"):
         if case["family"][1] > 40:
             yield dict(case, family=[case["family"][0], case["family"][1] // 2])
@@ -694,6 +866,12 @@ def shrink_case(case):
 
 
 def neighbours_case(case, rng, profiles):
+    if case.get("special") == "c15":
+        from checks import c15
+        for q in c15.neighbours(case["inner"], rng):
+            if _aio_outside_open_findings(c15, q):
+                yield {"special": "c15", "inner": q}
+        return
     if case.get("special") or case.get("family"):
         return
     for _ in range(16):
@@ -708,8 +886,35 @@ def neighbours_case(case, rng, profiles):
         yield dict(case, cfg=cfg)
 
 
+def fork(rng, tag):
+    """a generator of its own for a family added later: derived from the state of the plan's generator WITHOUT consuming
+    it, so that the programs generated after the family are the same as before it existed (stored seeds that are caught by a
+    handful of the random programs keep being caught at every VERIF_SEED)"""
+    return random.Random("%s-%d" % (tag, hash(rng.getstate())))
+
+
+def guard_cases(tier, rng, quick_n=60, thorough_n=1500):
+    """computations that hit the runaway-recursion guard (MAX_TASK_STACK_SIZE lowered), alone and nested in synchronous
+    calls whose callers catch the RuntimeError, followed by further computations on the same thread"""
+    res = []
+    for _ in range(quick_n if tier == "quick" else thorough_n):
+        c = coregen.gen_case(rng, rng.choice(["sync", "full", "yield"]), ntops=rng.choice([1, 2, 3]))
+        c["cfg"]["maxStack"] = rng.choice([1, 2, 3, 4, 6, 9])
+        res.append(c)
+    return res
+
+
 def signature_for(case, v):
+    if case.get("special") == "c15":
+        from checks import c15
+        return "asyncio-mode/" + c15.signature(case["inner"], v)
     sig = v["spec"]
+    if case.get("special") == "selfawait":
+        # the running task really is awaited (not a fresh instance) AND tolerates the ValueError of its nested call: one
+        # root cause whatever the route (recorded finding); every other variant has a signature of its own
+        if case.get("tolerate") and corefam4.selfawait_reentrant(case):
+            return sig + "/reentrant-await-tolerated"
+        return sig + "/" + case["via"] + ("-tolerated" if case.get("tolerate") else "")
     if case.get("family"):
         return sig + "/" + case["family"][0]
     if not case.get("special") and "nonasync" in json.dumps(case.get("tops")):
